@@ -6,7 +6,9 @@ From NessaiV Require Import Lib.FSModel.
 
 Lemma role_eqb_eq : forall a b, role_eqb a b = true <-> a = b.
 Proof.
-  intros [| |n] [| |m]; simpl; split; intro H; try reflexivity; try discriminate.
+  intros [| |n|n] [| |m|m]; simpl; split; intro H; try reflexivity; try discriminate.
+  - apply Nat.eqb_eq in H. now subst.
+  - inversion H. apply Nat.eqb_refl.
   - apply Nat.eqb_eq in H. now subst.
   - inversion H. apply Nat.eqb_refl.
 Qed.
